@@ -375,6 +375,10 @@ class StructureMetaType(MetaType):
                 value = field_type.__default__()
 
             if field.bits:
+                if isinstance(value, bytes):
+                    # The value of a char bit field is a number, but its default is still the default of char
+                    value = int.from_bytes(value, "big")
+
                 if isinstance(field_type, EnumMetaType):
                     bit_buffer.write(field_type.type, value.value, field.bits)
                 else:
